@@ -27,6 +27,7 @@ ASSUMPTIONS = ["the lemma stated in EXPLANATION / DESIGN.md section 5 C02", "alt
 
 
 def run(ctx):
+    C.require_locals(ctx, ctx.func('ArchSemantics.assign_optimal_throughput'), ['INC', 'port_sums', 'instr_ports', 'max_port_idx', 'min_port_idx', 'kernel', 'instruction_form', 'idx', 'k_tmp', 'best_kernel', 'best_kernel_tp', 'multiple_assignments', 'cycles'])
     P = balancer_parts(ctx)
     f, sl, ul = P["f"], P["step_loop"], P["uop_loop"]
     # ---- P1 pairing and direction (re-evaluated here: a premise of this lemma)
